@@ -36,10 +36,11 @@ ASSUMPTIONS = [
     "suggestion functions never return sentinels or '#' tokens",
 ]
 BOUNDS = {
-    "quick": "149 line shapes; all single lines x 3 EOLs, all ordered pairs of a 51-line subset x 3 EOL patterns, all 12^3 keyword "
-    "configuration triples x 2 EOL patterns, blank-in-the-middle triples; 4 suggestion functions; build over <=2 entries",
-    "thorough": "all ordered pairs of 165 line shapes x 5 EOL patterns (incl. lone CR), all triples of the 51-line subset x 2 EOL "
-    "patterns; 5 suggestion functions; build over <=3 entries",
+    "quick": "245 line shapes (12 keyword configurations x 5 spacing styles x 4 comment styles + 5 blank/comment-only); 16,530 texts: all single "
+    "lines x 3 EOLs, all ordered pairs of a 63-line subset x 3 EOL patterns, all 12^3 keyword-configuration triples x 2 EOL patterns, "
+    "blank-in-the-middle triples; 4 suggestion functions; with_keywords x 3 keyword tuples per line; build over <=2 entries (1,807)",
+    "thorough": "305 line shapes; 534,230 texts: all ordered pairs of the 305 shapes x 3 EOL patterns (incl. lone CR), all triples of the "
+    "63-line subset; 5 suggestion functions; build over <=3 entries (5,903)",
 }
 
 SENT_ALL, SENT_SAME, SENT_NONE = "*", "^", "-"
@@ -96,48 +97,66 @@ def _join(lines, eols):
     return "".join(l + e for l, e in zip(lines, eols))
 
 
-def texts(tier):
-    """Deterministic list of list texts, simplest first, de-duplicated."""
-    out = []
+TRI_EOLS = [("\n", "\n", ""), ("\r\n", "\n", "\r\n")]
+
+
+def blocks(tier):
+    """Cheap descriptors of disjoint slices of the enumeration, simplest first; block_texts() expands one."""
+    shapes = line_shapes(tier)
+    out = [("single", i) for i in range(len(shapes))]
+    npair = len(reduced_shapes()) if tier == "quick" else len(shapes)
+    out += [("pair", i) for i in range(npair)]
+    out += [("tri", i, j) for i in range(len(KWCONF)) for j in range(len(KWCONF))]
+    out += [("blank", i) for i in range(len(KWCONF))]
+    if tier != "quick":
+        nred = len(reduced_shapes())
+        out += [("tri3", i, j) for i in range(nred) for j in range(nred)]
+    return out
+
+
+def block_texts(tier, blk):
     shapes = line_shapes(tier)
     red = reduced_shapes()
-    for l in shapes:
+    kind = blk[0]
+    out = []
+    if kind == "single":
         for e in ("", "\n", "\r\n") + (("\r",) if tier != "quick" else ()):
-            out.append(l + e)
-    pair_eols = [("\n", ""), ("\r\n", "\r\n"), ("\n", "\r\n")]
-    if tier == "quick":
-        pair_src = red
-    else:
-        pair_src = shapes
-        pair_eols += [("\r\n", ""), ("\r", "\n")]
-    for a in pair_src:
-        for b in pair_src:
-            for eo in pair_eols:
+            out.append(shapes[blk[1]] + e)
+    elif kind == "pair":
+        if tier == "quick":
+            src, eols = red, [("\n", ""), ("\r\n", "\r\n"), ("\n", "\r\n")]
+        else:
+            src, eols = shapes, [("\n", ""), ("\r\n", "\r\n"), ("\r", "\n")]
+        a = src[blk[1]]
+        for b in src:
+            for eo in eols:
                 out.append(_join((a, b), eo))
-    tri_eols = [("\n", "\n", ""), ("\r\n", "\n", "\r\n")]
-    n = 0
-    for i, ka in enumerate(KWCONF):
-        for j, kb in enumerate(KWCONF):
-            for k, kc_ in enumerate(KWCONF):
-                n += 1
-                ls = (
-                    _line(i, ka, n % NS_, (n // 4) % NC_),
-                    _line(j + 1, kb, (n // 2) % NS_, (n // 5) % NC_),
-                    _line(k + 2, kc_, (n // 3) % NS_, (n // 7) % NC_),
-                )
-                for eo in tri_eols:
-                    out.append(_join(ls, eo))
-    for i, ka in enumerate(KWCONF):
+    elif kind == "tri":
+        i, j = blk[1], blk[2]
+        for k, kc_ in enumerate(KWCONF):
+            n = (i * len(KWCONF) + j) * len(KWCONF) + k + 1
+            ls = (
+                _line(i, KWCONF[i], n % NS_, (n // 4) % NC_),
+                _line(j + 1, KWCONF[j], (n // 2) % NS_, (n // 5) % NC_),
+                _line(k + 2, kc_, (n // 3) % NS_, (n // 7) % NC_),
+            )
+            for eo in TRI_EOLS:
+                out.append(_join(ls, eo))
+    elif kind == "blank":
+        i = blk[1]
         for j, kb in enumerate(KWCONF):
             for bl in (BLANKS[0], BLANKS[2], BLANKS[3]):
-                out.append(_join((_line(i, ka, 0, 0), bl, _line(j + 1, kb, 2, 1)), ("\n", "\r\n", "\n")))
-    if tier != "quick":
-        for a in red:
-            for b in red:
-                for c in red:
-                    for eo in tri_eols:
-                        out.append(_join((a, b, c), eo))
-    return list(dict.fromkeys(out))
+                out.append(_join((_line(i, KWCONF[i], 0, 0), bl, _line(j + 1, kb, 2, 1)), ("\n", "\r\n", "\n")))
+    else:
+        a, b = red[blk[1]], red[blk[2]]
+        for c in red:
+            out.append(_join((a, b, c), TRI_EOLS[(len(a) + len(c)) % 2]))
+    return out
+
+
+def texts(tier):
+    """The whole enumeration (used for counting; a handful of texts occur in two blocks, which is harmless)."""
+    return [t for blk in blocks(tier) for t in block_texts(tier, blk)]
 
 
 # ------------------------------------------------------------------------------------------------ reference scanner
@@ -423,9 +442,8 @@ def work(task):
                 viol.append({"kind": "build", "entries": ents, "msg": msgs[0]})
         return {"evals": evals, "classes": classes, "viol": viol, "samples": [{"build": build_entries(tier)[idx + 1]}]}
     n = NTASKS[tier]
-    for j, text in enumerate(texts(tier)):
-        if j % n != idx:
-            continue
+    mine = [t for j, blk in enumerate(blocks(tier)) if j % n == idx for t in block_texts(tier, blk)]
+    for text in mine:
         sc = sentinel_class(text)
         evals += 1
         msgs = check_parse(text)
